@@ -41,7 +41,14 @@ def agree(ctx, *args):
     fs = MemFS()
     k = ST.build(tid, renames=True)
     ST.apply_state(k, slots, vals)
-    outs = O.produce(k, fs, wd=True)
+    outs = O.produce(k, fs, wd=ctx.get("wd", True))
+    if "target" in ctx:
+        # second generation: the outputs are regenerated over the files of the state before one further operation
+        from .c03 import _apply_op
+
+        n = ctx["nstate"]
+        _apply_op(k, slots[ctx["target"]], Dom.from_json(ctx["odom"]), args[n], args[n + 1])
+        outs = O.produce(k, fs, wd=ctx.get("wd", True))
     main, dep, dflt = O.read_sdkconfig(outs["sdkconfig"])
     hdr = O.read_header(outs["header"])
     cm, lst = O.read_cmake(outs["cmake"])
@@ -76,6 +83,8 @@ def agree(ctx, *args):
             if kind == "hex" and not (hdr[x].startswith(("0x", "0X")) and cm[x].startswith("0x")):
                 return False
     # aliases
+    if not ctx.get("wd", True):
+        return not dep and set(lst) == set("CONFIG_" + n for n in cm)
     rm = rename_map(tid)
     exp_alias_order = []
     for old, (new, inv) in rm.items():
@@ -117,6 +126,22 @@ def agree(ctx, *args):
     return True
 
 
+def _regen(trees, dom, budget, tmo, rng, ntargets, skip):
+    """second generation over the files of the first: the options written last (files that only get shorter) and
+    seeded further ones; with and without the deprecated blocks (which otherwise end every file)"""
+    from .common import op_value_bounds
+
+    odom = Dom(int_max=9, int_cands=["-3"], str_mode="cand", str_cands=["p", ""], hex_cands=["0x1f", "0x2"], float_cands=["0.25", "5"])
+    out = []
+    for tid, wd in trees:
+        slots = ST.layout(tid)
+        idx = [i for i, sl in enumerate(slots) if sl.kind != "pick"]
+        targets = idx[-2:] + rng.sample(idx[:-2], min(len(idx[:-2]), max(0, ntargets - 2)))
+        for t in targets:
+            out += state_jobs("C07", "vk.props.c07", "agree", [tid], dom, budget, 1, tmo, rng, {"skip": skip, "wd": wd, "target": t, "odom": odom.to_json()}, tag="regen-" + slots[t].name, extra_params=[("ok", "int"), ("ov", "int")], extra_pre="0 <= ok <= 3 and " + op_value_bounds(slots[t], odom), extra_samples=lambda r: [r.randint(0, 3), 0], must_free=lambda a, b, t=t: [b[t].name])
+    return out
+
+
 def jobs(tier, seed, excluded=()):
     rng = random.Random(seed)
     skip = [r for r in excluded]
@@ -124,10 +149,13 @@ def jobs(tier, seed, excluded=()):
         dom = Dom(int_max=9, int_cands=["007", "-3"], str_mode="cand", str_cands=["", 'q"t', "b\\s", "n", "y"], hex_cands=["0x1f", "0X1F", "1f"], float_cands=["5", "1e3", "-0.5"])
         out = state_jobs("C07", "vk.props.c07", "agree", ["T13", "T13b"], dom, 250, 3, 120, rng, {"skip": skip})
         out += state_jobs("C07", "vk.props.c07", "agree", ["T01", "T05", "T07", "T04"], dom, 120, 1, 90, rng, {"skip": skip})
+        out += _regen([("T01", True), ("T07", True), ("T13b", True), ("T13b", False)], dom, 12, 90, rng, 2, skip)
     else:
         from ..trees import edges
 
         dom = Dom(int_max=120, int_cands=["007", "-3", "1_0"], str_mode="cand", hex_cands=["0x1f", "0X1F", "1f", "001f", "0x0"], float_cands=["5", "1e3", "-0.5", ".5"])
         out = state_jobs("C07", "vk.props.c07", "agree", ["T13", "T13b"], dom, 700, 6, 400, rng, {"skip": skip})
         out += state_jobs("C07", "vk.props.c07", "agree", ["T01", "T02", "T03", "T04", "T05", "T06", "T07", "T08", "T09", "T10", "T11", "T12", "T15"] + edges.ids(), dom, 500, 2, 300, rng, {"skip": skip})
+    if tier != "quick":
+        out += _regen([("T01", True), ("T05", True), ("T07", True), ("T04", True), ("T13b", True), ("T13b", False), ("T13", True)], dom, 40, 300, rng, 5, skip)
     return out
